@@ -401,7 +401,7 @@ func (ce *cenv) eval(e ast.Expr) Val {
 		case *types.Slice:
 			return ex.sliceLoad(ce.st, c, i.L[0])
 		case *types.Map:
-			return ex.mapGet(ce.st, c, i.L[0])
+			return ex.mapGet(ce.st, c, ex.mapKeyTerm(t, i))
 		case *types.Pointer:
 			if arr, ok := t.Elem().Underlying().(*types.Array); ok {
 				return ex.load(ce.st, elemPtr(arr.Elem(), c.L[0], i.L[0]))
@@ -944,7 +944,7 @@ func (ce *cenv) pseudo(name string, x *ast.CallExpr) (Val, bool) {
 		return intVal(arg(0).L[3]), true
 	case "has": // has(m, k): key present in map
 		m := arg(0)
-		return boolVal(ex.mapHas(ce.st, m, arg(1).L[0])), true
+		return boolVal(ex.mapHas(ce.st, m, ex.mapKeyTerm(m.T.Underlying().(*types.Map), arg(1)))), true
 	case "fresh": // fresh(p): allocated after function entry
 		v := arg(0)
 		return boolVal(app(">", v.L[0], ce.old.Top)), true
